@@ -145,20 +145,16 @@ async fn run(mut s: Sim, mut rng: Rng, _len: usize) -> Sim {
         }
         5 => { // C01 / C02: leaves at the byte boundaries of the bitmaps (7, 8, 15, 16): settle, then the same leaf again
             let e = open_epoch(&mut s, &mut g).await;
-            // leaf 15 (bit 7 of the second bitmap byte) belongs to a validator that never funds its deposit: it is written off, twice
-            let leaves: Vec<Leaf> = (0..17).map(|i| Leaf::Debt { node: if i == 15 { g.nodes[6].clone() } else { g.nodes[i % 6].clone() }, amount: 1_000 + i as u64 }).collect();
+            let leaves: Vec<Leaf> = (0..17).map(|i| Leaf::Debt { node: g.nodes[i % 6].clone(), amount: 1_000 + i as u64 }).collect();
             let total: u64 = (0..17).map(|i| 1_000 + i as u64).sum();
             let t = s.def_tree(0, leaves.clone());
             let ix = s.rd_configure_debt(&g.debt_acc, e, 17, total, t.root); s.op(tx(vec![ix])).await;
             let ix = s.rd_finalize_debt(&g.debt_acc, e, &g.payer); s.op(tx(vec![ix])).await;
-            let ix = s.rd_enable_write_off(e, &g.payer); s.op(tx(vec![ix])).await;
-            { let p = s.proof(&t, 15).unwrap(); let poor = g.nodes[6].clone();
-              for _ in 0..2 { let ix = s.rd_write_off(&g.debt_acc, e, &poor, e, 1_015, &p); s.op(tx(vec![ix])).await; } }
             // C01: a payment of amount 0 carrying the genuine proof of a non-zero leaf (leaf 9): the leaf hash does not match, refused,
             // and the leaf stays payable
             { let Leaf::Debt { node, .. } = leaves[9].clone() else { unreachable!() };
               let p = s.proof(&t, 9).unwrap(); let ix = s.rd_pay(e, &node, 0, &p); s.op(tx(vec![ix])).await; }
-            for idx in [7u32, 8, 16, 0, 6, 9] {
+            for idx in [7u32, 8, 15, 16, 0, 6, 9] {
                 let Leaf::Debt { node, amount } = leaves[idx as usize].clone() else { unreachable!() };
                 s.op(Op::Airdrop(K::RdDeposit(b(&node)), 2 * amount)).await;
                 let p = s.proof(&t, idx).unwrap();
@@ -185,6 +181,23 @@ async fn run(mut s: Sim, mut rng: Rng, _len: usize) -> Sim {
                 let p = s.proof(&rt, idx).unwrap();
                 let ix = s.rd_distribute(e, &contributor, &g.relayer, &recs, unit_share, packed, &p); s.op(tx(vec![ix.clone()])).await; s.op(tx(vec![ix])).await;
             }
+            // C10 (kept at the end so that the steps above do not depend on it): a second and third epoch whose 16 leaves all belong to a
+            // validator that never funds its deposit: leaves 7 and 15 (bit 7 of each bitmap byte) written off twice - the second attempt is
+            // refused; then a leaf larger than the absorbing epoch's remaining collectible debt (700 into a total of 500): refused
+            { let poor = g.nodes[6].clone();
+              let ea = open_epoch(&mut s, &mut g).await; let eb = open_epoch(&mut s, &mut g).await;
+              let la: Vec<Leaf> = (0..16).map(|i| Leaf::Debt { node: poor.clone(), amount: if i == 3 { 700 } else { 10 + i as u64 } }).collect();
+              let ta = s.def_tree(0, la.clone()); let tot_a: u64 = la.iter().map(|l| if let Leaf::Debt { amount, .. } = l { *amount } else { 0 }).sum();
+              let tb = s.def_tree(0, vec![Leaf::Debt { node: g.nodes[1].clone(), amount: 500 }]);
+              for (e2, t2, n2, tot2) in [(ea, &ta, 16u32, tot_a), (eb, &tb, 1, 500)] {
+                  let ix = s.rd_configure_debt(&g.debt_acc, e2, n2, tot2, t2.root); s.op(tx(vec![ix])).await;
+                  let ix = s.rd_finalize_debt(&g.debt_acc, e2, &g.payer); s.op(tx(vec![ix])).await; }
+              let ix = s.rd_enable_write_off(ea, &g.payer); s.op(tx(vec![ix])).await;
+              for idx in [7u32, 15] { let Leaf::Debt { amount, .. } = la[idx as usize].clone() else { unreachable!() };
+                  let p = s.proof(&ta, idx).unwrap();
+                  for _ in 0..2 { let ix = s.rd_write_off(&g.debt_acc, ea, &poor, ea, amount, &p); s.op(tx(vec![ix])).await; } }
+              let p3 = s.proof(&ta, 3).unwrap();
+              let ix = s.rd_write_off(&g.debt_acc, ea, &poor, eb, 700, &p3); s.op(tx(vec![ix])).await; }
         }
         6 => { // C15 / C04: grace periods whose second count exceeds 16 bits: creation pacing and the calculation gate at the boundaries
             for st in [RdSetting::InitGrace(2880), RdSetting::CalcGrace(1440)] { let ix = s.rd_configure(&g.admin, st); s.op(tx(vec![ix])).await; }
